@@ -6,13 +6,12 @@
    Crash <exception type>), tied to the real `_normalize_props` + `_create_fts` of /repo by the
    correspondence run of harness/props/c10_model.py.
 
-   Proved: a field type tree that the regenerated final schema accepts and that contains no float
-   and no null `mappings` property is never a crash (the claim of the comment in
-   `_Parser._parse`); for string field types the schema alone suffices.  The two excluded cases
-   are documented constraints that the schemas still do not enforce (Props/C09.v): for each a
-   schema-valid witness on which the skeleton crashes (`_refuted`), replayed on the real front end.
+   Proved: a field type tree that the regenerated final schema accepts is never a crash (the claim
+   of the comment in `_Parser._parse`: "the node already has the expected structure"), with no
+   further hypothesis since the schema defects it used to depend on were repaired in /repo.
    The former crash witnesses (static array without length, dynamic array without element,
-   member `a-b: 5`) are now rejected by the regenerated schema (Examples). *)
+   member `a-b: 5`, `alignment: 8.0`, `mappings: null`) are rejected by the regenerated schema
+   (Examples) and replayed on the real front end as regression inputs. *)
 From Coq Require Import List String ZArith Bool.
 Import ListNotations.
 From BT.Front Require Import Json JsonSchema JsonSchemaLemmas DocValid JsonSchemaDoc JsonWitness
@@ -20,26 +19,15 @@ From BT.Front Require Import Json JsonSchema JsonSchemaLemmas DocValid JsonSchem
 From BT.Gen Require Schemas3.
 Open Scope string_scope.
 
-Theorem C10_create_ft_total_partial :
-  forall j, accepts3 "config/3/field-type#/definitions/ft" j -> clean j = true ->
-  forall fuel e, create_ft fuel j <> Crash e.
+Theorem C10_create_ft_total :
+  forall j, accepts3 "config/3/field-type#/definitions/ft" j -> forall fuel e, create_ft fuel j <> Crash e.
 Proof. exact create_ft_total_accepted. Qed.
-Print Assumptions C10_create_ft_total_partial.
+Print Assumptions C10_create_ft_total.
 
 Theorem C10_create_ft_total_string :
   forall j, VK "config/3/field-type#/definitions/string-ft" j -> forall fuel, create_ft (S fuel) j = Ok.
 Proof. exact create_string_total. Qed.
 Print Assumptions C10_create_ft_total_string.
-
-(* full-strength statement "accepted by the final schema => no crash" is still false: *)
-Theorem C10_create_ft_enum_null_mappings_refuted :   (* KeyError('mappings') *)
-  exists j, accepts3 "config/3/field-type#/definitions/ft" j /\ exists fuel e, create_ft fuel j = Crash e.
-Proof. exact (refuted_crash w_enum_null _ w_enum_null_valid crash_enum_null). Qed.
-Theorem C10_create_ft_float_alignment_refuted :      (* S19: TypeError in _validate_alignment *)
-  exists j, accepts3 "config/3/field-type#/definitions/ft" j /\ exists fuel e, create_ft fuel j = Crash e.
-Proof. exact (refuted_crash w_align_float _ w_align_float_valid crash_align_float). Qed.
-Print Assumptions C10_create_ft_enum_null_mappings_refuted.
-Print Assumptions C10_create_ft_float_alignment_refuted.
 
 (* non-vacuity: a nested, documented field type tree is created; a non-power-of-two alignment
    is a configuration error, not a crash *)
@@ -65,3 +53,9 @@ Proof. exact w_S4_rejected. Qed.
 Example C10_member_value_rejected :
   validate Schemas3.store 200 (SRef K_ft) w_member_val = Invalid.
 Proof. exact w_member_val_rejected. Qed.
+Example C10_float_alignment_rejected :
+  validate Schemas3.store 200 (SRef K_ft) w_align_float = Invalid.
+Proof. exact w_align_float_rejected. Qed.
+Example C10_enum_null_mappings_rejected :
+  validate Schemas3.store 200 (SRef K_ft) w_enum_null = Invalid.
+Proof. exact w_enum_null_rejected. Qed.
